@@ -1,4 +1,75 @@
+/-
+C10 — applying build_diff(old, new) to old yields new.
+
+Model (`Model/Diff.lean`): one node — a callable, named arguments and tags — with the
+validation the real `DiffOperation.apply` goes through (`__setattr__`, `__delattr__`,
+`add_tag`, `remove_tag`, `update_callable` all check argument names against the node's
+*current* callable; `sg f` = the names callable `f` accepts). `flatDiff` is `build_diff` for
+such a pair, `applyPhases` is `_apply_changes`: one pass per operation type, in the order of
+the tuple in the source — which is read from /repo into `Tables.applyOrder` on every run.
+
+Proved, for every pair of valid nodes and every signature table: the application succeeds,
+the callable, every argument and every tag set of the result are those of `new`; the diff of
+a node with an equal node is empty; the order of the phases is what makes it succeed
+(`C10_order_matters`: a different order fails on a concrete pair).
+Not modelled (correspondence run and its oracle only): alignment of nested structures,
+moved/shared sub-configurations and `new_shared_values`, positional arguments (a known
+finding: build_diff rejects them), in-place identity of the root.
+-/
+import FiddleModel.Lemmas.DiffMain
 import FiddleModel.Generated.Tables
+
 namespace Fiddle
-theorem C10_placeholder : True := trivial
+open Fiddle.Diff
+
+/-- The phase order of `_apply_changes` in the current source is the one the theorem is about. -/
+theorem C10_apply_order_obligation :
+    Tables.applyOrder = ["DeleteValue", "RemoveTag", "ModifyValue", "SetValue", "AddTag"] := by
+  decide
+
+/-- `apply_diff(build_diff(old, new), old)` succeeds and yields `new`: same callable, same
+    value for every argument key (set or unset), same tag set for every argument. -/
+theorem C10_apply_build_diff (sg : Sigs) (old new : Flat) (ho : old.Valid sg) (hn : new.Valid sg) :
+    ∃ r, applyPhases sg Tables.applyOrder (flatDiff old new) old = .ok r ∧
+      r.fn = new.fn ∧ (∀ k, r.args.get? k = new.args.get? k) ∧
+      (∀ n t, t ∈ r.tagsOf n ↔ t ∈ new.tagsOf n) := by
+  rw [C10_apply_order_obligation]
+  exact flat_roundtrip sg old new ho hn
+
+/-- The diff between a configuration and its (equal) deep copy is empty. -/
+theorem C10_diff_of_copy_is_empty (c : Flat) (hn : c.args.NodupKeys) (ht : c.tags.NodupKeys) :
+    flatDiff c c = [] := flatDiff_self c hn ht
+
+/-- An empty diff changes nothing. -/
+theorem C10_empty_diff_is_identity (sg : Sigs) (order : List String) (c : Flat) :
+    applyPhases sg order [] c = .ok c := by
+  induction order with
+  | nil => rfl
+  | cons ty order ih => simp [applyPhases, applyAll, ih]
+
+/-! ## The order matters, and the hypotheses are satisfiable -/
+
+private def sgEx : Sigs := fun f => if f = "f" then ["a", "c"] else if f = "g" then ["b", "c"] else []
+private def oldEx : Flat := { fn := "f", args := [(.name "a", .v 1), (.name "c", .v 3)], tags := [(.name "a", [7])] }
+private def newEx : Flat := { fn := "g", args := [(.name "c", .v 4), (.name "b", .v 2)], tags := [(.name "b", [8])] }
+
+example : oldEx.Valid sgEx ∧ newEx.Valid sgEx :=
+  ⟨⟨by decide, by unfold Dict.NodupKeys; decide, by decide, by unfold Dict.NodupKeys; decide⟩,
+   ⟨by decide, by unfold Dict.NodupKeys; decide, by decide, by unfold Dict.NodupKeys; decide⟩⟩
+
+example : flatDiff oldEx newEx =
+    [.deleteValue "a", .removeTag "a" 7, .modifyFn "g", .modifyValue "c" (.v 4), .setValue "b" (.v 2),
+     .addTag "b" 8] := by decide
+
+example : (applyPhases sgEx Tables.applyOrder (flatDiff oldEx newEx) oldEx).toOption =
+    some { fn := "g", args := [(.name "c", .v 4), (.name "b", .v 2)],
+           tags := [(.name "a", []), (.name "b", [8])] } := by decide
+
+/-- Changing the callable before deleting what the new callable rejects fails ... -/
+theorem C10_order_matters :
+    (applyPhases sgEx ["ModifyValue", "DeleteValue", "RemoveTag", "SetValue", "AddTag"]
+      (flatDiff oldEx newEx) oldEx).toOption = none ∧
+    (applyPhases sgEx ["DeleteValue", "RemoveTag", "SetValue", "ModifyValue", "AddTag"]
+      (flatDiff oldEx newEx) oldEx).toOption = none := by decide
+
 end Fiddle
